@@ -658,6 +658,9 @@ class Translator:
         base, args = split_template(name)
         if base in STD_MODELS:
             return self.model_ct(base, args, fctx, node)
+        if base == '__gnu_cxx::__normal_iterator' and args:
+            # iterator of the bounded std::vector model: the element pointer itself
+            return self.ctype_str(args[0], fctx, node)
         if name in self.records:
             return self.record_ct(self.records[name], fctx)
         if args is not None and base in self.templ:
@@ -985,6 +988,8 @@ class Translator:
             base, args = split_template(norm_type_string(q))
             if base in STD_MODELS:
                 return self.model_ct(base, args, fctx, decl)
+            if base == '__gnu_cxx::__normal_iterator' and args:
+                return self.ctype_str(args[0], fctx, decl)
         short = self.abbr(self.short_of_name(decl), self._record_skey(decl), 56)
         cname = self.uniq(self.struct_names, short, rid, skey=self._record_skey(decl))
         ct = CT('struct', c='struct ' + cname, rec=decl, short=cname)
@@ -1840,7 +1845,7 @@ class Translator:
         t2 = fctx.temps.pop()
         temps = fctx.temps.pop()
         out += [pad + '  ' + t for t in temps] + pre
-        out += [pad + '  for (; %s; %s)' % (c, i)] + self.loop_contract(fctx, k_loop, htemps, pad + '  ')
+        out += self.line(n, ind + 1) + [pad + '  for (; %s; %s)' % (c, i)] + self.loop_contract(fctx, k_loop, htemps, pad + '  ')
         out += [pad + '  {'] + [pad + '    ' + t for t in t2] + vl + bl + [pad + '  }', pad + '}']
         return out
 
@@ -3088,8 +3093,16 @@ class Translator:
             if act.model == 'array' and re.match(r'^\d+$', ta[0]): return '%s._M_elems[%s]' % (self.paren(self.ex(a, fctx)), ta[0])
         if q.startswith('std::forward') or q.startswith('std::move'):
             return self.ex(args[0], fctx)
-        if nm in ('operator==', 'operator!=') and len(args) == 2:
-            pass
+        if rec is not None and objinfo is not None and norm_type_string(self.ast.qualname(rec)).startswith('__gnu_cxx::__normal_iterator'):
+            obj, is_arrow = objinfo
+            oi = ('(*%s)' % self.ex(obj, fctx)) if is_arrow else self.ex(obj, fctx)
+            if nm == 'operator*' and not args: return '(*%s)' % self.paren(oi)
+            if nm == 'operator++': return ('(++%s)' % self.paren(oi)) if not args else ('(%s++)' % self.paren(oi))
+            if nm == 'operator--': return ('(--%s)' % self.paren(oi)) if not args else ('(%s--)' % self.paren(oi))
+            if nm == 'operator[]' and len(args) == 1: return '%s[%s]' % (self.paren(oi), self.ex(args[0], fctx))
+            if nm == 'base' and not args: return oi
+        if q.startswith('__gnu_cxx::operator') and len(args) == 2 and nm in ('operator==', 'operator!=', 'operator<', 'operator<=', 'operator>', 'operator>=', 'operator-'):
+            return '(%s %s %s)' % (self.ex(args[0], fctx), nm[len('operator'):], self.ex(args[1], fctx))
         fail('no model for std call %s' % q, n)
 
     # ---------------------------------------------------------------- output
